@@ -7,7 +7,7 @@ import common
 from common import zs, clist
 
 PROP = "C16"
-PROPERTY_FILES = ["Properties/C16.v"]
+PROPERTY_FILES = ["Properties/C16.v", "Properties/C16two.v"]
 META = dict(
     level_text="Theorems (Coq, closed under the global context): for every clock sequence over Z of any length and "
                "every generator state the rendered identifiers are pairwise distinct (strictly increasing "
@@ -224,6 +224,38 @@ def run(ctx, res):
         res.mismatches.append(dict(case=dict(clock=tmeta[idx], interleaving="B.generate() at every lock release of A"),
                                    impl=tcases[idx][1], model=model_out))
     res.extra["thread_model_cases"] = len(tcases)
+    # Model/IdGenTwo.v (Properties/C16two.v): two generators of one process, calls alternating arbitrarily, any clock
+    two, twometa = [], []
+    import bobocep.cep.gen.event_id as m2
+    for n in range(260 if ctx.quick else 3000):
+        t, calls = 10 ** 10 + 1000 * n, []
+        for _ in range(rng.randint(2, 12)):
+            t += rng.choice([0, 0, 0, 1, 1, -1, -2, 2])
+            calls.append((rng.random() < 0.5, t))
+        gens = {True: m2.BoboGenEventIDUnique(None), False: m2.BoboGenEventIDUnique(None)}
+        got = {True: [], False: []}
+        old = m2.time
+        try:
+            for who, c in calls:
+                m2.time = lambda c=c: c
+                got[who].append(gens[who].generate())
+        finally:
+            m2.time = old
+        try:
+            flat = [int(v) for i in got[True] for v in i.split("_")] + [-1] + [int(v) for i in got[False] for v in i.split("_")]
+        except ValueError:
+            flat = [-2]
+        sched = "; ".join("(%s, %d)" % ("true" if w else "false", c) for w, c in calls for _ in (0, 1))
+        two.append(("(false, [%s])" % sched, flat))
+        twometa.append(calls)
+        res.note_case(("two-generators-model", n), len({w for w, _ in calls}) == 2)
+    tm2, terr2 = common.coq_run_cases("C16W", "Model.IdGenTwo", "run_C16_two", "(bool * list (bool * Z))", two)
+    res.errors += terr2
+    res.traces_validated += len(two) - len(tm2)
+    for idx, model_out in tm2[:5]:
+        res.mismatches.append(dict(case=dict(calls=[[bool(w), c] for w, c in twometa[idx]], two_generators=True),
+                                   impl=two[idx][1], model=model_out))
+    res.extra["two_generator_model_cases"] = len(two)
     # the engines BoboSetupSimple assembles: devices with different URNs, the same clock second, the same requests -
     # their run identifiers and event identifiers must not coincide (the prefix has to reach every generator)
     r = setup_case(["dev:1", "dev:2", "dev:10", "Dev:1", "urn:x:A7", "urn:x:a7"])
@@ -484,6 +516,29 @@ def hook_case(seq):
 
 def replay(obj):
     case = obj.get("case") or {}
+    if not case and obj.get("mismatches") and (obj["mismatches"][0].get("case") or {}).get("two_generators"):
+        import bobocep.cep.gen.event_id as m2
+        calls = [(bool(w), c) for w, c in obj["mismatches"][0]["case"]["calls"]]
+        gens = {True: m2.BoboGenEventIDUnique(None), False: m2.BoboGenEventIDUnique(None)}
+        got = {True: [], False: []}
+        old = m2.time
+        try:
+            for who, c in calls:
+                m2.time = lambda c=c: c
+                got[who].append(gens[who].generate())
+        finally:
+            m2.time = old
+        print("calls (generator A?, clock):", calls)
+        print("implementation: A", got[True], " B", got[False])
+        sched = "; ".join("(%s, %d)" % ("true" if w else "false", c) for w, c in calls for _ in (0, 1))
+        model, _ = common.coq_eval("C16W", "Model.IdGenTwo", "run_C16_two (false, [%s])" % sched)
+        print("model         :", model)
+        try:
+            flat = [int(v) for i in got[True] for v in i.split("_")] + [-1] + [int(v) for i in got[False] for v in i.split("_")]
+        except ValueError:
+            flat = [-2]
+        print("model and implementation agree" if flat == model else "model and implementation differ")
+        return 0 if flat == model else 1
     if case.get("setup"):
         r = setup_case(["dev:1", "dev:2", "dev:10", "Dev:1", "urn:x:A7", "urn:x:a7"])
         print("engines from BoboSetupSimple, clock pinned:", json.dumps(r, indent=1))
